@@ -31,4 +31,14 @@ def obligations(tier):
                  backend=PORTFOLIO, flags=['--slice-formula'],
                  desc='conversions before the first and after the last pair: no access outside the exactly sized arrays (map exactly full at N=2)',
                  bound='N<=2 pairs (map exactly full with the 2-entry hook), deltas < 2^8'))
+    for n, df in ([(27, 3)] if tier == 'quick' else [(5, 2), (7, 2), (8, 2), (10, 3), (27, 3)]):
+        o.append(Obl('O1_utc_seek_D%d_N%d' % (df, n), 'c11_seek.c', units=['core.c', 'buffer.c'], seams={'core.c': ['jls_core_rd_chunk']},
+                     defines=['JLS_VERIF_SIGNAL_COUNT=2', 'JLS_VERIF_SOURCE_COUNT=2', 'JLS_VERIF_FSR_BUFFER_U64=2', 'JLS_VERIF_BUF_DEFAULT_SIZE=128', 'JLS_VERIF_BUF_STRING_SIZE=16',
+                              'N_FIXED=%d' % n, 'DF=%d' % df, 'SEEK_LEVEL1=1', 'STRICT_INCREASING=1'],
+                     unwind=18, unwind_text=[('harness', r'i < N_FIXED', n + 2), ('jls_core_rd_chunk', r'c < MAXC', 12), ('jls_core_ts_seek', r'for \\(; ; \\+\\+idx\\)', df + 2)],
+                     typed_calloc=True, timeout=900 if tier == 'quick' else 2400, backend=PORTFOLIO, objbits=10,
+                     desc='jls_core_ts_seek(level 1) as used by jls_core_utc over an index tree of %d entries (decimate %d, symbolic increasing sample ids), symbolic start id: '
+                          'every pair at or after the start id lies in the level-1 chunk found or a later one' % (n, df),
+                     bound='%d entries, decimate factor %d' % (n, df),
+                     assumes=['the index tree has the structure the builder produces (O1_utc_index_construction)']))
     return o
